@@ -20,6 +20,7 @@ type oracle struct {
 	r        *hx.Rng
 	rec      map[string]string // commit hash -> root dump recorded when it became a branch head
 	ntmp     int
+	replay   bool
 	preStash string // implementation dump right before the last stashpush (valid for the next op only)
 	lastOp   string
 	lastDump string
@@ -97,15 +98,22 @@ func (o *oracle) after(line, res string, pre, st *mstate, kc kase, all bool) boo
 	w := strings.Fields(line)
 	kind := w[0]
 	defer func() { o.lastOp = kind }()
+	// every oracle group runs only in its own property's check (violation keys are per property)
 	weight := func(p string, hi, lo int) int {
 		if o.prop == p {
 			return hi
 		}
-		return lo
+		return 0
 	}
+	if all {
+		all = false // replay: the own group always, the others never
+		defer func() { all = true }()
+	}
+	own := func(p string) bool { return o.prop == p }
 
 	// ---------------- C31
-	if c, ok := o.pickCommit(st, all); ok && o.chance(weight("C31", 10, 1), 100, all) {
+	replay := kc.Prop != "" && len(kc.Ops) > 0 && o.replay
+	if c, ok := o.pickCommit(st, replay); ok && own("C31") && (replay || o.chance(10, 100, false)) {
 		h := im.hashes[c]
 		p := im.hashes[st.parents[c][0]]
 		want, err1 := im.readRoot(h)
@@ -139,35 +147,45 @@ func (o *oracle) after(line, res string, pre, st *mstate, kc kase, all bool) boo
 			})
 		}
 	}
-	if (kind == "cherry" || kind == "cherryA" || kind == "revert" || kind == "revertA") && res == "ok" {
+	if own("C31") && (kind == "cherry" || kind == "cherryA" || kind == "revert" || kind == "revertA") && res == "ok" {
 		o.mergeDef(kind, w[1], pre, st, kc)
 	}
-	if kind == "rebase" && res == "ok" && len(im.lastPlan) > 0 {
+	if own("C31") && kind == "rebase" && res == "ok" && len(im.lastPlan) > 0 {
 		o.rebaseFold(w, pre, st, kc)
 	}
 
 	// ---------------- C32
-	if len(st.ids) >= 2 && o.chance(weight("C32", 25, 2), 100, all) {
+	if own("C32") && len(st.ids) >= 2 && (replay || o.chance(25, 100, false)) {
 		a := im.hashes[hx.Pick(o.r, st.ids)]
 		b := im.hashes[hx.Pick(o.r, st.ids)]
-		if all {
+		if replay {
 			b = im.hashes[st.ids[len(st.ids)-1]]
 		}
 		o.diffBrute(a, b, kc)
-		if o.chance(1, 2, all) {
+		if replay || o.chance(1, 2, false) {
 			o.patchRoundTrip(st.cur, a, b, kc)
 		}
+		if replay {
+			for _, x := range st.ids {
+				o.diffBrute(im.hashes[x], b, kc)
+				o.patchRoundTrip(st.cur, im.hashes[x], b, kc)
+			}
+		}
 	}
-	if len(st.W) > 0 && o.chance(weight("C32", 10, 1), 100, all) {
+	if own("C32") && len(st.W) > 0 && (replay || o.chance(10, 100, false)) {
 		o.diffTableEdges(hx.Pick(o.r, st.W).Name, st, kc)
 	}
 
 	// ---------------- C33
-	if o.chance(weight("C33", 30, 2), 100, all) {
+	if own("C33") && (replay || o.chance(30, 100, false)) {
 		o.asOfAll(st, kc)
 	}
+	_ = weight
 
 	// ---------------- C34
+	if !own("C34") {
+		kind = "-"
+	}
 	switch kind {
 	case "stashpush":
 		if res == "ok" {
@@ -570,9 +588,38 @@ func (o *oracle) patchRoundTrip(cur, a, b string, kc kase) {
 		got, _ := im.readRoot("WORKING")
 		o.rep.Hit("oracle/C32/patch-roundtrip")
 		if ok, why := rootEq(got, want, true); !ok {
-			o.rep.Violate("C32/patch-roundtrip/data", "executing dolt_patch(a,b) on a does not give b: "+why, kc)
+			if ok2, _ := rootEq(normCols(got), normCols(want), false); ok2 {
+				o.rep.Known("C32/patch-roundtrip/column-order", "executing dolt_patch(a,b) on a gives b's data but not b's column order (a dropped middle column is re-added at the end): "+why, kc)
+			} else {
+				o.rep.Violate("C32/patch-roundtrip/data", "executing dolt_patch(a,b) on a does not give b: "+why, kc)
+			}
 		}
 	})
+}
+
+// normCols sorts the columns of every table by name (cells permuted accordingly).
+func normCols(ts []*table) []*table {
+	out := make([]*table, len(ts))
+	for i, t := range ts {
+		idx := make([]int, len(t.Cols))
+		for j := range idx {
+			idx[j] = j
+		}
+		sort.Slice(idx, func(a, b int) bool { return t.Cols[idx[a]].Name < t.Cols[idx[b]].Name })
+		n := &table{Name: t.Name}
+		for _, j := range idx {
+			n.Cols = append(n.Cols, t.Cols[j])
+		}
+		for _, r := range t.Rows {
+			cells := make([]string, len(idx))
+			for k, j := range idx {
+				cells[k] = r.Cells[j]
+			}
+			n.Rows = append(n.Rows, row{r.PK, cells})
+		}
+		out[i] = n
+	}
+	return out
 }
 
 // diffTableEdges: every (first parent, child) edge of the current branch's linear history whose
@@ -675,6 +722,38 @@ func (o *oracle) diffTableEdges(n string, st *mstate, kc kase) {
 		id = st.parents[id][0]
 	}
 	o.rep.Hit("oracle/C32/dolt_diff_t")
+	// merged histories: every (parent, child) edge of HEAD's ancestry between two commits that both
+	// have the table must be listed when the rows differ (checked only when the table was never dropped
+	// in the ancestry, so that the "stop at a dropped table" rule does not apply).
+	anc := ancestors(st, st.branches[st.cur])
+	tbl := map[int]*table{}
+	for _, c := range anc {
+		tbl[c], _ = im.readTable(im.hashes[c], n)
+	}
+	dropped := false
+	for _, c := range anc {
+		for _, p := range st.parents[c] {
+			if tbl[p] != nil && tbl[c] == nil {
+				dropped = true
+			}
+		}
+	}
+	if dropped {
+		return
+	}
+	for _, c := range anc {
+		if len(st.parents[c]) == 0 || tbl[c] == nil {
+			continue
+		}
+		for _, p := range st.parents[c] {
+			if tbl[p] == nil || showTable(proj(tbl[p])) == showTable(proj(tbl[c])) {
+				continue
+			}
+			if _, ok := groups[im.hashes[c]+"<"+im.hashes[p]]; !ok {
+				o.rep.Known("C32/dolt_diff_t/merge-edge-missing", fmt.Sprintf("dolt_diff_%s lists no rows for the edge commit %d <- commit %d of a merged history although the table differs between them", n, c, p), kc)
+			}
+		}
+	}
 }
 
 // asOfAll: AS OF c in every spelling equals the dump recorded when c was created.
@@ -1234,6 +1313,16 @@ func witnesses(rn *runner) {
 		ops = []string{"create t c1:int", "ins t 1 i1", "create u c1:int", "commitA " + hexS("w1"), "branch b1 H",
 			"droptable u", "checkoutmove b1",
 			"upd t 1 c1 i2", "add t", "stashpush", "stashpop"}
+	case "C32":
+		// (1) dolt_patch re-adds a dropped middle column at the end; (2) dolt_diff_<t> omits the
+		// P -> A edge of a diamond
+		hx.Recover(func() string {
+			rn.runProgram(nil, []string{"create t c1:int c2:int c3:int", "ins t 1 i10 i20 i30", "commitA " + hexS("w1"),
+				"dropcol t c2", "commitA " + hexS("w2"), "revert H"}, 0)
+			return ""
+		})
+		ops = []string{"create t c1:int", "ins t 1 i10", "commitA " + hexS("w1"), "branch b1 H", "ins t 2 i20", "commita " + hexS("w2"),
+			"checkout b1", "ins t 3 i30", "commita " + hexS("w3"), "checkout main", "merge b1 0 " + hexS("w4"), "ins t 4 N"}
 	default:
 		return
 	}
